@@ -576,7 +576,7 @@ def schema_cases(ctx) -> Tuple[List[str], List[Dict[str, Any]]]:
         if arg is None:
             term = "None"
         else:
-            fs = "; ".join(f"{{| fid := {f['id']}%Z; fname := {f['id']}%Z; ftype := {'T_long' if f['type'] == 'long' else 'T_string'}; fspell := 0%Z; freq := false |}}"
+            fs = "; ".join(f"{{| fid := {f['id']}%Z; fname := {f['id']}%Z; ftype := {'CPrim T_long' if f['type'] == 'long' else 'CPrim T_string'}; fspell := 0%Z; freq := false |}}"
                            for f in arg[1])
             term = f"(Some {{| sid := {arg[0]}%Z; sfields := [{fs}]; sstring := 0%Z |}})"
         exprs.append(f"(map (fun s => (sid s, Z.of_nat (List.length (sfields s)))) (fst (v0_schemas {term})), snd (v0_schemas {term}), "
